@@ -617,7 +617,8 @@ def check_generated(case) -> Verdict:
                 what = 'valid-case-not-reported'
             if not what and smode == 'symbol':
                 listing = MODEL.parse_symbol_list(osym['out'])
-                want = MODEL.expected_symbol_list(CG.PRELUDE_SYMBOLS, car['elems'])
+                want = MODEL.expected_symbol_list(CG.PRELUDE_SYMBOLS, car['elems'],
+                                                  GC.PRE_USE_REFERENCES if case.get('pre_use') else None)
                 if listing is None:
                     what = 'listing-of-other-form'
                 elif sorted((t, n) for t, _, n in listing) != sorted((t, n) for t, _, n in want):
@@ -696,10 +697,82 @@ def check_generated(case) -> Verdict:
                            'defects': [[d['op']['op'], d['mode']] for d in case['defects']]})
 
 
+# ---- the result directory before the act phase -------------------------------------------------------------------------
+# `help setup <instruction>` lists no `-rel-result` for any PATH argument ([act] makes the result directory; the pages of
+# the same instructions in the phases after [act] list it): in [setup] such a path - written with the option or reached
+# through a path symbol - is a mistake that is found before anything executes.
+_RBA_SITES = [  # (name, lines with {P} = the PATH argument)
+    ('copy-source', ['copy {P}']),
+    ('file-contents-of', ['file rba1.txt = -contents-of {P}']),
+    ('file-append-contents-of', ['file rba0.txt = "x"', 'file rba0.txt += -contents-of {P}']),
+    ('env-contents-of', ['env RBA_V = -contents-of {P}']),
+    ('env-of-act-contents-of', ['env -of act RBA_V = -contents-of {P}']),
+    ('env-of-non-act-contents-of', ['env -of !act RBA_V = -contents-of {P}']),
+    ('stdin-contents-of', ['stdin = -contents-of {P}']),
+    ('env-contents-of-transformed', ['env RBA_V = -contents-of {P} -transformed-by char-case -to-upper']),
+    ('run-executable', ['run {P}']),
+    ('run-existing-file-argument', ['run % cat -existing-file {P}']),
+    ('file-stdout-from-executable', ['file rba2.txt = -stdout-from {P}']),
+    ('dir-contents-of', ['dir rba3 = dir-contents-of {P}']),
+    ('def-text-source-used', ['def text-source RBA_TS = -contents-of {P}', 'file rba4.txt = @[RBA_TS]@']),
+    ('def-program-used', ['def program RBA_PGM = {P}', 'run @ RBA_PGM']),
+]
+_RBA_FORMS = [  # (name, definitions, PATH text)
+    ('option', [], '-rel-result stdout'),
+    ('rel-symbol', ['def path RBA_P = -rel-result stdout'], '-rel RBA_P .'),
+    ('leading-reference', ['def path RBA_P = -rel-result .'], '@[RBA_P]@/stdout'),
+    ('whole-reference', ['def path RBA_P = -rel-result stdout'], '@[RBA_P]@'),
+    ('chain-of-2', ['def path RBA_P0 = -rel-result .', 'def path RBA_P = -rel RBA_P0 .'], '@[RBA_P]@/stdout'),
+    ('chain-of-3', ['def path RBA_P0 = -rel-result .', 'def path RBA_P1 = @[RBA_P0]@/.',
+                    'def path RBA_P = -rel RBA_P1 .'], '-rel RBA_P stdout'),
+]
+_RBA_MODES = [('run', []), ('keep', ['--keep']), ('act', ['--act']), ('symbol', None)]
+
+
+def enum_result_before_act(tier):
+    for site, lines in _RBA_SITES:
+        for form, defs, path in _RBA_FORMS:
+            for k, (mode, _) in enumerate(_RBA_MODES):
+                for where in ('first', 'last'):
+                    yield {'site': site, 'form': form, 'mode': mode, 'where': where}
+
+
+def check_result_before_act(case) -> Verdict:
+    lines = dict(_RBA_SITES)[case['site']]
+    _, defs, path = [f for f in _RBA_FORMS if f[0] == case['form']][0]
+    mode_args = dict(_RBA_MODES)[case['mode']]
+    labels = ['site:' + case['site'], 'form:' + case['form'], 'mode:' + case['mode'], 'where:' + case['where']]
+
+    def text(p):
+        body = [l.replace('{P}', p) for l in lines]
+        setup = ['$ echo s0 >> {MARKERS}'] + defs
+        setup = (body + setup) if case['where'] == 'first' and not defs else (setup + body)
+        return '\n'.join(['[setup]'] + setup + ['[act]', '$ echo act >> {MARKERS}', '[cleanup]',
+                                                '$ echo c0 >> {MARKERS}']) + '\n'
+
+    argv = (['symbol', 't.case'] if mode_args is None else mode_args + ['t.case'])
+    files = {'t.case': text(path)}
+    o = _observe(files, argv)
+    key = '%s|%s|%s|%s' % (case['site'], case['form'], case['mode'], case['where'])
+    detail = {'files': files, 'argv': argv, 'observed': _short(o)}
+    what = nothing_happened(o)
+    if not what and o['exit'] != 65:
+        what = 'exit-code-not-65'
+    if not what:
+        ident = _first_line(o['out']) or _first_line(o['err'])
+        want = ('SYNTAX_ERROR', 'VALIDATION_ERROR') if case['form'] == 'option' else ('VALIDATION_ERROR',)
+        if ident not in want:
+            what = 'reported-as-%s' % ident
+    if what:
+        return fail('result-before-act/%s/%s' % (what, case['form']), detail, labels=labels, nontrivial=True, key=key)
+    return Verdict(True, nontrivial=True, key=key, labels=labels)
+
+
 SUBS = [
     Sub('defect_has_no_effect', check, strategy=lambda tier: cases(),
         budget={'quick': 600, 'thorough': 10000}),
     Sub('generated_defect', check_generated, strategy=lambda tier: GC.generated_cases(tier),
         budget={'quick': 1400, 'thorough': 16000}),
     Sub('enumerated_defects', check_generated, enumerate=GC.enumerated_cases),
+    Sub('result_dir_before_act', check_result_before_act, enumerate=enum_result_before_act, exhaustive=True),
 ]
